@@ -1,3 +1,26 @@
+import json, os
+
+_ROOT = os.path.dirname(os.path.dirname(os.path.abspath(__file__)))
+
+
+def _stale_review(chk):
+    """Informational: which transcribed C++ bodies changed since the model rows were last reviewed against them
+    (translators/iq_handlers_reviewed.json). A changed body with an unchanged behaviour on the enumerated cells keeps the
+    check green; the note says that the correspondence, not a re-read of the source, is what vouches for that row now."""
+    try:
+        now = json.load(open(os.path.join(_ROOT, ".build", "c08_body_hashes.json")))
+        rev = json.load(open(os.path.join(_ROOT, "translators", "iq_handlers_reviewed.json")))
+    except Exception as ex:  # translator did not run
+        chk.cov["handler_bodies_changed_since_review"] = ["(hash files unavailable: %s)" % ex]
+        return
+    changed = sorted(k for k in set(now) | set(rev) if now.get(k) != rev.get(k))
+    chk.cov["handler_bodies_hashed"] = len(now)
+    chk.cov["handler_bodies_changed_since_review"] = changed
+    if changed:
+        chk.log("NOTE: %d transcribed function bodies changed since the model was last reviewed against the source "
+                "(model may be stale; the cell-by-cell correspondence is what ties these rows now): %s" % (len(changed), ", ".join(changed)))
+
+
 SPEC = dict(
     id="C08",
     title="Every incoming IQ request is answered exactly once; responses are never answered",
@@ -6,56 +29,96 @@ SPEC = dict(
     drivers=["qxdriver_c08"],
     translators=["iq_handlers.py"],
     harnesses=[dict(name="iqreply", asan=False, driver="qxdriver_c08")],
+    extra=[_stale_review],
     exhaustive=True,
-    rule="cell = entry (stream: QXmppOutgoingClient::handlePacketReceived | decrypted: QXmppClient::injectIq) x type "
-         "{get,set,result,error,absent,garbage} x from {none,domain,own bare,own full,own other resource,other} x id "
-         "{absent,fresh,id of an outstanding sendIq request,id of an outstanding registration request,id of an outstanding "
-         "setBookmarks request} x payload (catalogue "
-         "of ~300 (quick) / ~380 (thorough) child lists: for each of 28 (tag,ns) keys handled by a bundled manager the "
-         "well-formed element, the bare element, malformed content, detail variants (with/without `with`, method a.b / "
-         "ab / a.b.c, own/foreign disco node, bookmarks / other private storage), after/before an unknown sibling, wrong "
-         "namespace, wrong tag, prefixed, with an <error/> sibling, behind text/comment, doubled; plus no child, unknown "
-         "children, text only, elements nobody handles, and elements claimed by two managers at once). Every (payload x "
-         "type x from) of the configuration's payload set is enumerated in both tiers with id=fresh on the stream entry; "
-         "the id and entry dimensions are complete for payloads the configuration's managers look at (and everywhere in the "
-         "thorough tier), seeded otherwise; attribute spellings (absent vs empty, 8 garbage types, look-alike JIDs, ids "
-         "needing XML escaping) are seeded. Configurations: no extension; each of 31 bundled managers alone (blocking also "
-         "subscribed); the default set; the default set and two bookmark sets over a really connected loopback socket; all "
-         "managers together in 3 (quick) / 7 (thorough) registration orders; 12 / 60 random small sets. A fresh client per cell "
-         "(every 50 cells in the quick all-managers runs). Each line compares who decided (measured with probe extensions between the "
-         "managers), number of IQ replies, their kind / to / id, other traffic, and the stream error, between the real "
-         "client and the Lean model; a configuration is non-trivial when it yields >= 2 distinct observations.",
+    rule="cell = entry (s: stream, QXmppOutgoingClient::handlePacketReceived | e: QXmppClient::injectIq with e2ee metadata | x: "
+         "encrypted on the stream, claimed and decrypted by a dummy QXmppE2eeExtension installed as first extension and as the "
+         "client's encryption extension, which calls injectIq) x stream phase (session | a negotiation manager is the listener: "
+         "TLS required and inactive, STARTTLS, SASL, SASL2, bind, SM request — seeded which) x type {get,set,result,error,absent,"
+         "garbage} x from {none,domain,own bare,own full,own other resource,the peer the client has state with,any other foreign "
+         "JID} x id {absent,fresh,id of an outstanding sendIq request,of an outstanding registration request,of an outstanding "
+         "setBookmarks request,of a joined room's permission request} x payload (catalogue of ~310 (quick) / ~390 (thorough) child "
+         "lists: for each of 28 (tag,ns) keys handled by a bundled manager the well-formed element, the bare element, malformed "
+         "content, detail variants (with/without `with`, method a.b / ab / a.b.c, own/foreign disco node, bookmarks / other private "
+         "storage, IBB elements with the job's sid / good and bad block-size / sequence number, SI offers with no / an unsupported / "
+         "a supported stream method, MUC owner form present or not), after/before an unknown sibling, wrong namespace, wrong tag, "
+         "prefixed, with an <error/> sibling, behind text/comment, doubled; plus no child, unknown children, text only, elements "
+         "nobody handles, and elements claimed by two managers at once). Every (payload x type x from) of the configuration's "
+         "payload set is enumerated in both tiers with id=fresh on the stream entry in session phase; the id, entry and phase "
+         "dimensions are complete for payloads the configuration's managers look at in the thorough tier and for the single-manager "
+         "configurations, seeded otherwise; attribute spellings (absent vs empty, 8 garbage types, look-alike JIDs, ids needing XML "
+         "escaping) are seeded. Configurations: no extension; each of 31 bundled managers alone, also in their non-initial states "
+         "(blocking subscribed; transfer manager with an accepting / declining fileReceived listener, with an accepted and with an "
+         "opened incoming in-band job; MUC manager with a room waiting for its permission lists); the default set, also over a "
+         "really connected loopback socket and after that socket was disconnected again; bookmark / room / job sets next to "
+         "competing managers; all managers together in 3 (quick) / 7 (thorough) registration orders with the stateful variants "
+         "rotated in; 8 / 60 random small sets. A fresh client per cell (every 50 cells in the quick stateless all-managers runs). "
+         "The 37 witness cells of the repaired defects run first. Each line compares who decided (measured with probe extensions "
+         "between the managers), number of IQ replies, per reply result | error type + defined condition / to / id / sent through "
+         "the e2ee extension, other traffic, and the stream error, between the real client and the Lean model; a configuration is "
+         "non-trivial when it yields >= 2 distinct observations. Oracle (model independent): get/set => exactly one IQ of type "
+         "result|error, `to` = the request's `from` (absent `to` only towards the own server), same id, no foreign `from`, a "
+         "result without <error/>, an error with exactly one <error/> carrying a valid type and exactly one defined condition; "
+         "when no extension decided: cancel + feature-not-implemented|service-unavailable, and encrypted if the request was; "
+         "result/error => no reply; before session establishment => no reply.",
     trusted_base=[
         "Lean 4.33.0 kernel; axioms per theorem listed under coverage.theorems (subset of propext, Classical.choice, Quot.sound)",
         "hand-written model lean/Qx/Model/C08Dispatch.lean (each bundled handleStanza transcribed over an abstract DOM), tied to "
         "src/client/*Manager.cpp, QXmppClient.cpp, QXmppOutgoingClient.cpp, QXmppIqHandling.{h,cpp} by the correspondence run",
-        "translators/iq_handlers.py (regex reader): handler sites, handler style, default extension set, pipeline anchors",
-        "abstraction of a stanza to (type, from, id, entry, [(tag, ns, flag)]): behaviour depending on anything else would show "
-        "as a correspondence mismatch only on the payload variants in the catalogue (sampled part)",
+        "translators/iq_handlers.py is a regex reader, not a semantic one. It DOES trip (lake build fails) on: a class in "
+        "src/client gaining or losing a `bool X::handleStanza(` definition; a handler switching between the old and the e2ee-aware "
+        "signature; a handleStanza body calling a new / no longer calling an `isXyz(` predicate or handleIqRequests<T> type (names, "
+        "in order of first appearance); a change of the BasicExtensions block; it exits 1 when the textual anchors of the pipeline "
+        "(order ack manager - IQ table - extensions, new-style-then-old-style call, the get/set tests of the two fallbacks) are "
+        "gone. It does NOT trip on: a changed condition inside a handler that keeps the same predicate names (e.g. `== Result` "
+        "to `!= Error`, a dropped sender check), changes inside the isXyz predicates themselves (src/base), inside helper "
+        "functions, or in what is sent. Those are caught only if they change the observation of an enumerated cell "
+        "(correspondence / oracle). For them the translator hashes 40 function bodies (every handleStanza, the pipeline functions, "
+        "the transfer / RPC / disco / time / version helpers); props/C08.py reports bodies whose hash differs from "
+        "translators/iq_handlers_reviewed.json in the log and in coverage.handler_bodies_changed_since_review (informational: "
+        "'model may be stale'), it does not fail the check on its own",
+        "abstraction of a stanza to (type, from, id, entry, phase, [(tag, ns, flag, flag2)]): behaviour depending on anything else "
+        "would show as a correspondence mismatch only on the payload variants in the catalogue (sampled part)",
+        "the dummy e2ee extension (hex 'encryption') stands in for QXmppOmemoManager: same two roles (client extension that claims "
+        "encrypted IQs and calls injectIq; QXmppE2eeExtension used by QXmppClient::reply/sendSensitive)",
         "QDomDocument namespace processing (the harness parses the stanza wrapped in a stream element exactly like "
-        "XmppSocket::processData); Qt direct signal delivery",
+        "XmppSocket::processData); Qt direct signal delivery; queued signals are flushed with sendPostedEvents before observing",
     ],
     assumptions=[
-        "managers are in their initial state apart from the modelled ones (blocklist subscribed, outstanding registration id, "
-        "outstanding sendIq request, outstanding setBookmarks request): no transfer jobs, no joined MUC rooms (the MUC row is proved good with and without), no "
-        "RPC interface registered, nobody connected to QXmppTransferManager::fileReceived (with a listener the reply to an "
-        "accepted SI offer is deferred to the application)",
-        "QXmppCallManager (WITH_GSTREAMER=OFF) and QXmppOmemoManager (BUILD_OMEMO=OFF) are not part of the built library: not "
-        "modelled, not measured",
+        "manager states covered: initial; blocklist subscribed; outstanding registration / setBookmarks / sendIq request; "
+        "fileReceived listener that accepts or declines synchronously; one incoming in-band job (accepted, opened); a MUC room "
+        "waiting for permission lists / able to receive its configuration form. NOT covered: a fileReceived listener that keeps "
+        "the offer pending (the single reply is then sent when the application accepts or aborts the job), SOCKS5 jobs (reply after "
+        "an asynchronous TCP connect), outgoing transfer jobs, a registered RPC interface (result instead of item-not-found)",
+        "the roster manager's handler does not depend on whether the roster was received; pubsub/PEP and MIX managers only handle "
+        "<message/> events and IQ results through the request table; Jingle (QXmppCallManager, WITH_GSTREAMER=OFF) and OMEMO "
+        "(BUILD_OMEMO=OFF) are not part of the built library: not modelled, not measured",
+        "legacy non-SASL authentication (XEP-0078) as negotiation listener is not exercised (it treats any IQ as the answer to its "
+        "own query); the six other pre-session states are",
         "replies are observed as SentMessage log records of the client's socket; delivery by the server is outside the model",
         "absent/garbage `type` is outside the property text; the model and the harness still agree on it (stream error + "
         "disconnect when no extension claims the stanza)",
+        "observed, modelled, not a C08 matter: QXmppBlockingManager answers a DECRYPTED block/unblock request in the clear (its "
+        "handler does not pass the e2ee metadata on); with an incoming transfer job a result without from and id carrying "
+        "bytestream hosts makes the transfer manager send a SOCKS5 offer to the job's peer (empty == empty proxy match)",
     ],
-    level_text="Theorems: lifting lemma for every extension list (request_answered_once, response_never_answered); every "
-               "bundled handler (32 model rows) is good at every stanza with any number of children (every_row_good); C08_holds: "
-               "for every set and order of bundled managers and every stanza, get/set => exactly one reply with the same id to the "
-               "sender, result/error => none (C08_requests, C08_responses spell it out); generated handler-site, claim-predicate "
-               "and default-set tables equal the model's. Model tied to the real client by an exhaustive cell-by-cell "
-               "correspondence; the 37 witness cells that failed before the repo fixes are replayed first.",
+    level_text="Theorems, all for a stanza with any number of children: (1) lifting lemma for EVERY extension list, session "
+               "established: if each handler is good at the stanza, a get/set gets exactly one reply with the same id addressed "
+               "to the sender (request_answered_once) and a result/error — awaited or not — gets none (response_never_answered); "
+               "(2) every bundled handler in every modelled state (37 rows) is good at every stanza (every_row_good), hence "
+               "C08_holds / C08_requests / C08_responses for every set, order and state of bundled managers, for the stream, "
+               "injectIq and e2ee entries; (3) when no extension claims a get/set the one reply is error cancel/"
+               "feature-not-implemented to the sender with the request's id, encrypted iff the request arrived decrypted "
+               "(unclaimed_request_gets_feature_not_implemented, unclaimed_request_bundled); (4) before the session is "
+               "established nothing is sent and the stream is closed (no_reply_before_session); (5) generated handler-site, "
+               "claim-predicate and default-set tables equal the model's. NOT proved: which result/error payload a manager "
+               "sends beyond type + defined condition; eventual reply when the application defers its decision. Model tied to "
+               "the real client by an exhaustive cell-by-cell correspondence; the 37 witness cells that failed before the repo "
+               "fixes are replayed first.",
     level_note="Proved about the hand-written model; model-to-code tie is differential over the enumerated cell space "
-               "(exhaustive in type x from x payload catalogue, seeded in spellings). Nine managers violated the property until "
-               "repo commits 28afc7a 318b7cf 1833c1a 29beb7d 88fc5c1 daa6e10 7916dee e597fe7 af7bef7 (known_findings.json: fixed); "
-               "their oracle keys are kept, a recurrence is a violation.",
+               "(exhaustive in type x from x payload catalogue per configuration, seeded in spellings and partly in id/entry/phase). "
+               "Nine managers violated the property until repo commits 28afc7a 318b7cf 1833c1a 29beb7d 88fc5c1 daa6e10 7916dee "
+               "e597fe7 af7bef7 (known_findings.json: fixed); their oracle keys are kept, a recurrence is a violation.",
     design_ref="5.8",
     technique="Lean 4: chain-lifting lemma + per-handler case analysis over an abstract DOM; translator for handler sites; "
               "model/implementation correspondence on the real QXmppClient",
